@@ -12,7 +12,7 @@ set literal L:e1,e2 / I:e1,e2 ; cert = lc k r1..rk q b1 c1..bq cq ; term = N c |
 import os
 import itertools
 
-HOOK = os.environ.get("VERIF_HOOK_RABIN") == "1"
+HOOK = os.environ.get("VERIF_HOOK_RABIN", "1") == "1"   # the hook is committed in /repo (44a44d5); set VERIF_HOOK_RABIN=0 for a tree without it
 
 P61 = 2**61 - 1
 P89 = 2**89 - 1
